@@ -43,7 +43,7 @@ build_variant() {
       $CXX $BASE_FLAGS -fsanitize=thread $DEFS $INC -c "$REPO/src/$s.cpp" -o "$O/repo_$(echo $s | tr / _).o" 2>"$O/repo_$(echo $s | tr / _).log" &
       pids+=($!)
     done
-    for s in locks idm epoch zipf; do
+    for s in locks idm epoch zipf litmus; do
       $CXX $BASE_FLAGS -fsanitize=thread $DEFS $INC -c "$VERIF/scenarios/$s.cpp" -o "$O/scn_$s.o" 2>"$O/scn_$s.log" &
       pids+=($!)
     done
